@@ -14,7 +14,7 @@ def _sizes(tier, k):
 
 def _quick_structs(st):
     return st["name"] in ("opt-literal", "literal-cards", "ref-vs-iri", "ref-and-iri-same-node", "two-refs", "bnode-and-typed-iri", "multi-typed", "incoming-cards",
-                          "three-rows-mixed", "typed-bnode-values")
+                          "three-rows-mixed", "typed-bnode-values", "sm-single-constraint")
 
 
 def main(tier, t0):
